@@ -76,7 +76,7 @@ CLAIMS['C07'] = ('proof',
     'the integer SIMD kernels of the columnar path are the same definitions (unit A-simd). group_rows, execute_with_aggregation (one row for empty input, HAVING), columnar/aggregate.rs and combine() are not under contract.',
     _B_NOTE, 'contract-based deductive verification: Verus step contracts on mechanically extracted functions + Kani on the key equality/hash laws', 'DESIGN.md 5/C07')
 CLAIMS['C09'] = ('proof',
-    'Narrow, kernel contracts only: the primary-key fast path of UPDATE and DELETE is proved (Verus, over the real AST): extract_primary_key_lookup (both copies) answers Some([lit]) only for pkcol = lit / lit = pkcol on a single-column '
+    'Narrow, kernel contracts only: the WHERE decision shared by SELECT, UPDATE and DELETE (is_truthy_basic/is_truthy_combined and the six inline decision tables of the scan paths, lifted mechanically) is proved to be ONE function of the value on every boolean/NULL/numeric value (Kani), and the primary-key fast path of UPDATE and DELETE is proved (Verus, over the real AST): extract_primary_key_lookup (both copies) answers Some([lit]) only for pkcol = lit / lit = pkcol on a single-column '
     'primary key, and RowSelector::select_rows returns for every table and WHERE clause exactly the rows the reference table scan returns (an index hit is used, a miss falls back to the scan) - under the stated assumption that an index HIT is the scan result. '
     'The inline copy of that logic in DeleteExecutor::execute_internal, SET evaluation on pre-update values, row counts and INSERT coercion are not under contract.',
     _B_NOTE, 'contract-based deductive verification: Verus on mechanically extracted functions over the real AST types', 'DESIGN.md 5/C09')
